@@ -85,7 +85,11 @@ func (m *TrieStore) Seek(rng storage.SeekRange, f func(k, v []byte) bool) {
 	if len(rng.Start) > 0 {
 		fromP = toNibbles(rng.Start)
 	}
-	_, start, path, err := m.trie.getWithPath(m.trie.root, prefixP, false)
+	// The traversal resolves and collapses nodes in place. It can run in a
+	// goroutine of its own (SeekAsync) while Get is called, so it works on
+	// its own copy of the trie (nodes are read from the same store).
+	tr := NewTrie(NewHashNode(m.trie.root.Hash()), m.trie.mode, m.trie.Store)
+	_, start, path, err := tr.getWithPath(tr.root, prefixP, false)
 	if err != nil {
 		// Failed to determine the start node => no matching items.
 		return
@@ -107,7 +111,7 @@ func (m *TrieStore) Seek(rng storage.SeekRange, f func(k, v []byte) bool) {
 		}
 	}
 
-	b := NewBillet(m.trie.root.Hash(), m.trie.mode, DummySTTempStoragePrefix, m.trie.Store)
+	b := NewBillet(tr.root.Hash(), tr.mode, DummySTTempStoragePrefix, tr.Store)
 	process := func(pathToNode []byte, node Node, _ []byte) bool {
 		if leaf, ok := node.(*LeafNode); ok {
 			// (*Billet).traverse includes `from` path into the result if so. It's OK for Seek, so shouldn't be filtered out.
